@@ -89,6 +89,11 @@ def configure(prog, rep, tag):
             if tr and tr[1] is not None and "u32" in b.local_ty(c.dest["l"]):
                 s1 = q.edge_dominated(b, tr[0], tr[1])
     s1_sends = [s_ for s_ in sends if "DcSync1CycleTime" in _reg_of(b, s_)]
+    # the SYNC0 cycle time is sent as a u64: 8 bytes from 0x09A0, i.e. it also writes (zeroes) the SYNC1 cycle time at
+    # 0x09A4.  The SYNC1 write therefore has to come after it, never before.
+    s0_sends = [s_ for s_ in sends if "DcSync0CycleTime" in _reg_of(b, s_)]
+    ok_order = len(s0_sends) == 1 and len(s1_sends) == 1 and s1_sends[0].bb in b.reachable_strict(s0_sends[0].bb) and not (s0_sends[0].bb in b.reachable_from(s1_sends[0].bb, avoid={c.bb for c in b.calls() if c.is_("Iterator::next")}))
+    rep.ob(P, "sync1-cycle-time-after-sync0" + tag, ok_order, "within one device's configuration the 8 byte write to DcSync0CycleTime (0x09A0..0x09A8) precedes the write of the SYNC1 cycle time at 0x09A4: the other order zeroes the SYNC1 period of a SYNC0+SYNC1 device", loc=b.span)
     rep.ob(P, "range-check:sync1_period" + tag, s1 is not None and len(s1_sends) == 1 and s1_sends[0].bb in s1, "sync1_period passes u32::try_from(as_nanos())? before it is written to DcSync1CycleTime (a 4 byte register: a larger value would spill into the latch control registers behind it)", loc=b.span)
     # HasDc carries the checked values
     if hasdc:
